@@ -198,7 +198,9 @@ def expanded_atoms(ctx, f, guards, binds=None) -> List[Tuple[str, bool]]:
     binds = binds if binds is not None else bindings(f.node)
     out = []
     for t, pol in guards:
-        out.extend(test_atoms(expand_test(ctx, f, t, binds), pol))
+        for a in test_atoms(t, pol) + test_atoms(expand_test(ctx, f, t, binds), pol):
+            if a not in out:
+                out.append(a)   # the atoms as written are facts too (a local list tested for emptiness)
     return out
 
 
@@ -220,3 +222,181 @@ def helper_calls(ctx, f, within: Optional[ast.AST] = None):
                 continue
             out.append((n, callee, m))
     return out
+
+
+# ------------------------------------------------------------------------------------------ CFG with raising helpers
+def always_raises(fnode) -> bool:
+    """A function that cannot return normally by its own text: no `return`/`yield`, and its body ends in a
+    `raise` (the everyday shape of an extracted `_raise_xyz()` helper that lacks a `-> NoReturn` annotation)."""
+    for n in walk_local(fnode):
+        if isinstance(n, (ast.Return, ast.Yield, ast.YieldFrom)):
+            return False
+    body = _body_wo_doc(fnode)
+    return bool(body) and isinstance(body[-1], ast.Raise)
+
+
+def cfg_following_raisers(ctx, f):
+    """CFG of f in which a bare-expression call of a `-> NoReturn` function OR of a same-module/same-class helper
+    that always raises ends the path."""
+    from ..cfg import CFG
+    cache = ctx.__dict__.setdefault("_rob_b1_cfg", {})
+    if id(f.node) in cache:
+        return cache[id(f.node)]
+    nr = ctx.noreturn_names()
+
+    def noreturn(call: ast.Call) -> bool:
+        fn = call.func
+        nm = fn.attr if isinstance(fn, ast.Attribute) else (fn.id if isinstance(fn, ast.Name) else None)
+        if nm in nr:
+            return True
+        callee = resolve_callee(ctx, f, call)
+        return callee is not None and callee.node is not f.node and always_raises(callee.node)
+
+    g = CFG(f.node, noreturn=noreturn)
+    cache[id(f.node)] = g
+    ctx.functions_analysed.add(f.key)
+    return g
+
+
+# ------------------------------------------------------------------------------------------ extract-method normalisation
+class _Rename(ast.NodeTransformer):
+    def __init__(self, mapping: Dict[str, str]):
+        self.mapping = mapping
+
+    def visit_Name(self, node):
+        if node.id in self.mapping:
+            return ast.copy_location(ast.Name(id=self.mapping[node.id], ctx=node.ctx), node)
+        return node
+
+
+def _simple_arg(e) -> bool:
+    while isinstance(e, ast.Attribute):
+        e = e.value
+    return isinstance(e, (ast.Name, ast.Constant))
+
+
+def _inline_call(ctx, f, call: ast.Call, mode: str, used: set, skip, targets=None) -> Optional[List[ast.stmt]]:
+    """Statements equivalent to `helper(..)` (mode 'expr'), `<targets> = helper(..)` ('assign') or
+    `return helper(..)` ('return'), or None when the helper cannot be inlined faithfully."""
+    callee = resolve_callee(ctx, f, call)
+    if callee is None or callee.node is f.node or callee.module is not f.module or callee.name in skip:
+        return None
+    if callee.name == f.name or not isinstance(callee.node, ast.FunctionDef):
+        return None
+    decos = [d for d in callee.decorators if d.rsplit(".", 1)[-1] not in ("staticmethod", "classmethod")]
+    if decos:
+        return None
+    hn = callee.node
+    if any(isinstance(n, (ast.Yield, ast.YieldFrom, ast.Global, ast.Nonlocal)) for n in walk_local(hn)):
+        return None
+    m = bind_args(call, callee)
+    if m is None:
+        return None
+    a = hn.args
+    if a.vararg or a.kwarg:
+        return None
+    pos = [x.arg for x in a.posonlyargs + a.args]
+    defaults = dict(zip(pos[len(pos) - len(a.defaults):], a.defaults))
+    defaults.update({x.arg: d for x, d in zip(a.kwonlyargs, a.kw_defaults) if d is not None})
+    own_self = None
+    if callee.cls is not None and pos and pos[0] in ("self", "cls") and "staticmethod" not in " ".join(callee.decorators):
+        own_self = pos[0]
+        head = (call_name(call) or "").rpartition(".")[0]
+        if head not in ("self", "cls"):
+            return None
+    for p in pos + [x.arg for x in a.kwonlyargs]:
+        if p == own_self or p in m:
+            continue
+        if p not in defaults:
+            return None
+        m[p] = defaults[p]
+    body = copy.deepcopy(_body_wo_doc(hn))
+    if not body:
+        return None
+    rets = [n for st in body for n in ([st] if isinstance(st, ast.Return) else [])]
+    all_rets = [n for n in walk_local(ast.Module(body=body, type_ignores=[])) if isinstance(n, ast.Return)]
+    last = body[-1]
+    if mode == "expr":
+        if any(r is not last for r in all_rets):
+            return None
+        if isinstance(last, ast.Return):
+            body = body[:-1] + ([ast.copy_location(ast.Expr(value=last.value), last)] if last.value is not None else [])
+    elif mode == "assign":
+        if not (isinstance(last, ast.Return) and last.value is not None) or any(r is not last for r in all_rets):
+            return None
+        body = body[:-1] + [ast.copy_location(ast.Assign(targets=copy.deepcopy(targets), value=last.value), last)]
+    else:  # 'return'
+        if not isinstance(last, (ast.Return, ast.Raise)):
+            body.append(ast.copy_location(ast.Return(value=ast.Constant(value=None)), last))
+    del rets
+    stored = {n for n, v, st in name_stores(hn)}
+    prologue: List[ast.stmt] = []
+    subst: Dict[str, ast.AST] = {}
+    rename: Dict[str, str] = {}
+    for p, arg in m.items():
+        if p not in stored and (_simple_arg(arg) or sum(1 for n in walk_local(hn) if isinstance(n, ast.Name) and n.id == p) <= 1):
+            subst[p] = arg
+        else:
+            new = p if p not in used else p + "__inl"
+            if new != p:
+                rename[p] = new
+            prologue.append(ast.copy_location(ast.Assign(targets=[ast.Name(id=new, ctx=ast.Store())], value=copy.deepcopy(arg)), call))
+    for loc_name in stored - set(m):
+        if loc_name in used:
+            rename[loc_name] = loc_name + "__inl"
+    mod = ast.Module(body=body, type_ignores=[])
+    if rename:
+        mod = _Rename(rename).visit(mod)
+    if subst:
+        mod = _Subst(subst).visit(mod)
+    used.update(rename.values())
+    used.update(stored)
+    ctx.functions_analysed.add(callee.key)
+    out = prologue + list(mod.body)
+    for st in out:
+        ast.fix_missing_locations(st)
+    return out
+
+
+def _inline_block(ctx, f, body: List[ast.stmt], used: set, skip, depth: int) -> List[ast.stmt]:
+    out: List[ast.stmt] = []
+    for st in body:
+        repl = None
+        if depth > 0:
+            if isinstance(st, ast.Expr) and isinstance(st.value, ast.Call):
+                repl = _inline_call(ctx, f, st.value, "expr", used, skip)
+            elif isinstance(st, ast.Assign) and isinstance(st.value, ast.Call):
+                repl = _inline_call(ctx, f, st.value, "assign", used, skip, st.targets)
+            elif isinstance(st, ast.Return) and isinstance(st.value, ast.Call):
+                repl = _inline_call(ctx, f, st.value, "return", used, skip)
+        if repl is not None:
+            out.extend(_inline_block(ctx, f, repl, used, skip, depth - 1))
+            continue
+        for fld in ("body", "orelse", "finalbody"):
+            sub_ = getattr(st, fld, None)
+            if isinstance(sub_, list) and sub_ and isinstance(sub_[0], ast.stmt) and not isinstance(st, (ast.FunctionDef, ast.AsyncFunctionDef, ast.ClassDef)):
+                setattr(st, fld, _inline_block(ctx, f, sub_, used, skip, depth))
+        for h in getattr(st, "handlers", []) or []:
+            h.body = _inline_block(ctx, f, h.body, used, skip, depth)
+        out.append(st)
+    return out
+
+
+def inline_helpers(ctx, f, skip=(), depth: int = 2):
+    """A copy of FuncInfo `f` whose AST has the statement-level calls of same-module helpers / methods of its own
+    class (`self._part_two(x)`, `y = self._compute(x)`, `return self._rest(x)`) replaced by the helper's body with
+    the arguments substituted -- the inverse of 'extract method'.  Helpers named in `skip`, generators, decorated
+    functions and helpers with early returns (unless called as `return helper(..)`) stay calls.
+    The result has fresh AST nodes: use `parent_map(f2.node)` and `ctx.cfg(f2.node)` / `cfg_following_raisers`."""
+    cache = ctx.__dict__.setdefault("_rob_b1_inl", {})
+    k = (id(f.node), tuple(sorted(skip)), depth)
+    if k in cache:
+        return cache[k]
+    node = copy.deepcopy(f.node)
+    used = {n.id for n in ast.walk(node) if isinstance(n, ast.Name)} | set(params_of(node))
+    node.body = _inline_block(ctx, f, node.body, used, set(skip), depth)
+    ast.fix_missing_locations(node)
+    f2 = copy.copy(f)
+    f2.node = node
+    cache[k] = f2
+    return f2
